@@ -292,6 +292,7 @@ def check(chk):
                text="start removes pause")
     _tick_arithmetic(chk, tm)
     _timed_pause(chk, repo)
+    _timer_reloaded_from_config(chk, repo)
     # whoever (re)creates the periodic tick leaves it armed: no removal of the system timer after the creation on any path
     for name in ("start", "jump", "set_tick_interval", "change_tick_interval", "restart"):
         f2 = tm.methods.get(name)
@@ -568,6 +569,22 @@ def _timed_pause(chk, repo):
     chk.ob("PAUSE-13", "a placeholder value is scaled (x1000 for ms) before it is truncated to an int", ok, g.where(), construct=g.ident, text="timer value scaling")
 
 
+def _timer_reloaded_from_config(chk, repo):
+    """LOAD-13: every run of the mode starts the timer from its configuration: device_loaded_in_mode sets the tick interval, the start value and
+    the count unconditionally (a value changed during the previous run - change_tick_interval, jump - never leaks into the next one)."""
+    f = repo.func(TM, "Timer.device_loaded_in_mode")
+    chk.analysed(f)
+    cfg = f.cfg()
+    want = {"self.tick_secs": "self.config['tick_interval'].evaluate([])", "self.start_value": "self.config['start_value'].evaluate([])", "self.ticks": "self.start_value",
+            "self.player": "player"}
+    for attr, val in sorted(want.items()):
+        st = [n for n in cfg.nodes if n.kind == "stmt" and isinstance(n.ast, ast.Assign) and src(n.ast.targets[0]) == attr]
+        ok = len(st) == 1 and src(st[0].ast.value).replace('"', "'") == val and not cfg.guards_at(st[0].id) and \
+            cfg.must_pass(cfg.entry.id, [st[0].id], ends=[cfg.exit.id]) is None
+        chk.ob("LOAD-13", "loading the timer sets %s from %s on every path, unconditionally" % (attr, val), ok, f.where(st[0].ast) if st else f.where(),
+               detail="guards %s" % sorted(cfg.guards_at(st[0].id).items()) if st else "no store", construct=f.ident, text="timer load " + attr)
+
+
 def _tick_arithmetic(chk, tm):
     """TICK-1: the count of a timer device moves by exactly one per tick in its direction, by the given amount on add / subtract
     (relative to the current count, never overwritten by the amount), and is set absolutely only by jump / load (clamped to max_value)."""
@@ -661,6 +678,7 @@ def battery():
         M("mode delay armed on the machine-wide manager (survives the mode)", "mpf/core/mode.py", "        self.delay.add(ms=ms_delay, callback=callback, mode=self)", "        self.machine.delay.add(ms=ms_delay, callback=callback, mode=self)", "DOM-26"),
         M("pause length truncated to whole seconds before scaling", TM, "            return int(timer_value.evaluate(kwargs) * (1000 if in_ms else 1))", "            value = int(timer_value.evaluate(kwargs))\n            return value * 1000 if in_ms else value", ["PAUSE-13", "ROUND-0"]),
         M("pause length in seconds handed to the ms delay", TM, "pause_ms = self._get_timer_value(timer_value, in_ms=True, **kwargs)", "pause_ms = self._get_timer_value(timer_value, **kwargs)", "PAUSE-13"),
+        M("tick interval initialised lazily at load", TM, "        self.tick_secs = self.config['tick_interval'].evaluate([])\n\n        try:", "        if self.tick_secs is None:\n            self.tick_secs = self.config['tick_interval'].evaluate([])\n\n        try:", "LOAD-13"),
     ]
 
 
